@@ -18,6 +18,7 @@ import itertools
 import math
 import os
 import random
+import re
 import time
 from fractions import Fraction
 from multiprocessing import Pool
@@ -1338,7 +1339,15 @@ def walk_book(seed, tmpdir):
         for k, fn in enumerate(fns):
             formulas.append((0, col_letters(7 + k), 1 + i, f'={fn}({args})'))
             items.append((fn, idx))
-    return Book(sheets, formulas, tmpdir, name='walk.xlsx'), formulas, items, model
+    book = Book(sheets, formulas, tmpdir, name='walk.xlsx')
+    # rows of each sheet that exist when the workbook is translated (a whole-column area is resolved against them)
+    book.used_rows = {si: max([c[1] for c in sh['cells']] + [f[2] for f in formulas if f[0] == si] + [0]) for si, sh in enumerate(sheets)}
+    book.walk_args = [args for (args, idx, fns) in W_FORMS for _ in fns]
+    return book, formulas, items, model
+
+
+def _agrees_or_no_clause(exp, got):
+    return exp is None or judge(exp, got)
 
 
 def run_walk(seed, steps, st, stop_at=None):
@@ -1387,6 +1396,11 @@ def run_walk(seed, steps, st, stop_at=None):
                 st['failing'] += 1
                 if fn == 'COUNT' and judge(spec(fn, ment, dates_numeric=True), got):
                     key = 'C11.COUNT.date'
+                elif re.fullmatch(r'(?:[A-Z]+!)?[A-Z]+:[A-Z]+', book.walk_args[k]) and _agrees_or_no_clause(
+                        spec(fn, [model[i] if W_CELLS[i][2] < book.used_rows[W_CELLS[i][0]] else initial[i] for i in idx]), got):
+                    # the value is the fold over the rows that existed at translation time (or that fold has no clause, e.g.
+                    # no number among those rows): the known whole-column defect
+                    key = 'C11.override.beyond_used_range.whole_column'
                 else:
                     key = f'C11.reuse.override_sequence.{fn}' if step else f'C11.reuse.initial.{fn}'
                 text = (f'{formulas[k][3]} after {step} set_cells calls (last: {history[-1] if history else "none"}) with cells '
